@@ -69,12 +69,44 @@ fn avk_bytes(k: &ProtocolAggregateVerificationKeyForConcatenation) -> Option<Str
     k.to_json_hex().ok()
 }
 
+pub const ANCHORED_ONLY_IN_UNSIGNED_GENESIS_FIELDS: &str = "anchored-only-in-unsigned-genesis-fields";
+
+/// does the signed protocol message of `p` commit to exactly the key and parameters of `c`?
+fn commitment_defect(p: &Certificate, c: &Certificate) -> Option<&'static str> {
+    let committed_avk = p
+        .protocol_message
+        .get_message_part(&ProtocolMessagePartKey::NextAggregateVerificationKey)
+        .and_then(|s| ProtocolAggregateVerificationKeyForConcatenation::try_from(s.as_str()).ok())
+        .and_then(|k| avk_bytes(&k));
+    if committed_avk.is_none() || committed_avk != avk_bytes(&c.aggregate_verification_key) {
+        return Some("previous-epoch-does-not-commit-to-aggregate-key");
+    }
+    let committed_params = p.protocol_message.get_message_part(&ProtocolMessagePartKey::NextProtocolParameters);
+    if committed_params != Some(&c.metadata.protocol_parameters.compute_hash()) {
+        return Some("previous-epoch-does-not-commit-to-parameters");
+    }
+    None
+}
+
+fn commits_to(p: &Certificate, c: &Certificate) -> bool {
+    commitment_defect(p, c).is_none()
+}
+
 /// Why the link c → p is not one of the two allowed kinds (None = valid link).
 /// Only the chaining rule is judged here; the hash p is reached by and p's own integrity are
 /// judged separately.
 pub fn link_defect(c: &Certificate, p: &Certificate) -> Option<&'static str> {
     let (ce, pe) = (c.epoch.0, p.epoch.0);
     if pe == ce {
+        // A genesis certificate's own key / parameter fields are covered by its hash but not by the
+        // genesis signature (only its signed protocol message is). A certificate of the genesis
+        // epoch is anchored in the genesis key only through that signed message: the link is judged
+        // by the commitment alone (deliberately weaker than the text when the unsigned fields differ
+        // but the signed commitment matches).
+        let p_is_genesis = matches!(p.signature, CertificateSignature::GenesisSignature(_));
+        if p_is_genesis && commits_to(p, c) {
+            return None;
+        }
         // same epoch: same aggregate key and same parameters carried by both certificates
         if avk_bytes(&c.aggregate_verification_key) != avk_bytes(&p.aggregate_verification_key)
             || avk_bytes(&c.aggregate_verification_key).is_none()
@@ -84,22 +116,13 @@ pub fn link_defect(c: &Certificate, p: &Certificate) -> Option<&'static str> {
         if c.metadata.protocol_parameters != p.metadata.protocol_parameters {
             return Some("same-epoch-different-parameters");
         }
+        if p_is_genesis {
+            return Some(ANCHORED_ONLY_IN_UNSIGNED_GENESIS_FIELDS);
+        }
         None
     } else if pe.checked_add(1) == Some(ce) {
         // immediately preceding epoch: p's signed message commits to exactly c's key and parameters
-        let committed_avk = p
-            .protocol_message
-            .get_message_part(&ProtocolMessagePartKey::NextAggregateVerificationKey)
-            .and_then(|s| ProtocolAggregateVerificationKeyForConcatenation::try_from(s.as_str()).ok())
-            .and_then(|k| avk_bytes(&k));
-        if committed_avk.is_none() || committed_avk != avk_bytes(&c.aggregate_verification_key) {
-            return Some("previous-epoch-does-not-commit-to-aggregate-key");
-        }
-        let committed_params = p.protocol_message.get_message_part(&ProtocolMessagePartKey::NextProtocolParameters);
-        if committed_params != Some(&c.metadata.protocol_parameters.compute_hash()) {
-            return Some("previous-epoch-does-not-commit-to-parameters");
-        }
-        None
+        commitment_defect(p, c)
     } else if ce.checked_add(1) == Some(pe) {
         Some("link-to-following-epoch")
     } else {
